@@ -17,19 +17,20 @@ import numpy as np
 
 from .. import taps, gen
 from ..ctx import Skip, digest
-from ..snap import snap, is_obs
+from ..snap import snap, is_obs, obs_digest
 from ..compare import compare_obs
 from ..ref import dense
 from ..ref import rootint as ri
 
 ID = 'C09'
 LEVEL = 'exploration'
-DECIDING = ['tap:find_root', 'tap:quad', 'roots_judged', 'integrals_judged', 'plain_number_integrals_judged']
+DECIDING = ['tap:find_root', 'tap:quad', 'roots_judged', 'integrals_judged', 'plain_number_integrals_judged', 'repeated_object_cases', 'histories_judged']
 RULE = ('cases: find_root on 9 families (x^n-d, exp(ax)-d, a log x - d, tanh(ax)-d, monotone cubic; vector-valued d: d0 e^x - d1, d0 x^2 - d1, '
         'd0 x + d1 - d2, x^3 + d0 x - d1) with d given as Obs / list / array, entries on the same chains (identical / nested / overlapping '
         'lists, replica subsets), different ensembles or covariance inputs; quad on polynomial / exponential (also half line) / '
-        'trigonometric integrands x every subset of {parameters (none, some, all), lower limit, upper limit} being observables x '
-        '{same, different ensembles, covariance inputs}, reversed limits, scipy options; non-trivial: root with non-constant sensitivity '
+        'trigonometric integrands (also with scipy weight=cos|sin) x every subset of {parameters (none, some, all), lower limit, upper limit} being observables x '
+        '{same, different ensembles, covariance inputs}, reversed limits, scipy options; the same observable (same object or equal copy) in two slots (parameter-parameter, parameter-limit, '
+        'limit-limit; twice in a vector d); call histories with a twin input of equal names / lists / value; non-trivial: root with non-constant sensitivity '
         'compared in its fluctuations; integral with >= 1 observable limit or >= 2 observable parameters; '
         'distinct = digest of (family, constants, operand data)')
 ASSUMPTIONS = ['values: |x - x_exact| <= 1e-7 scale (fsolve) / 1e-9 int|f| (quadrature); sensitivities rtol 1e-6 (roots) / 1e-8 (integrals)',
@@ -161,6 +162,30 @@ def reference(ins, grads, f):
     return ref, scale, snaps, rmeans
 
 
+def tidy_cancellations(got, ref, snaps, gabs, rtol):
+    """Slots whose contributions cancel (the same observable in two slots, a = b) leave rounding residue of the size
+    rtol * sum_k |g_k| max|input_k| on a chain / covariance input where the exact result is zero.  Such residue on BOTH sides is
+    set to exactly zero before the field-by-field comparison (which scales by the result itself); the size of the slot terms,
+    not an absolute number, decides what counts as residue.  Returns the snapshot of `got` to be compared."""
+    g = snap(got)
+    g = dict(g, chains=dict(g['chains']), cov=dict(g['cov']))
+    for c in list(ref['chains']):
+        term = sum(ga * (float(np.max(np.abs(s_['chains'][c][1]))) if c in s_['chains'] and len(s_['chains'][c][1]) else 0.0) for s_, ga in zip(snaps, gabs))
+        if c in g['chains'] and term > 0:
+            rd, gd = ref['chains'][c][1], g['chains'][c][1]
+            if len(rd) == len(gd) and np.max(np.abs(rd), initial=0.0) <= rtol * term and np.max(np.abs(gd), initial=0.0) <= rtol * term:
+                ref['chains'][c] = (ref['chains'][c][0], np.zeros(len(rd)), ref['chains'][c][2])
+                g['chains'][c] = (g['chains'][c][0], np.zeros(len(gd)), g['chains'][c][2])
+    for n in list(ref['cov']):
+        term = sum(ga * float(np.max(np.abs(s_['cov'][n][1]))) for s_, ga in zip(snaps, gabs) if n in s_['cov'])
+        if n in g['cov'] and term > 0:
+            rg, gg = np.asarray(ref['cov'][n], dtype=float), g['cov'][n][1]
+            if np.max(np.abs(rg), initial=0.0) <= rtol * term and np.max(np.abs(gg), initial=0.0) <= rtol * term:
+                ref['cov'][n] = np.zeros(np.shape(rg))
+                g['cov'][n] = (g['cov'][n][0], np.zeros(np.shape(gg)))
+    return g
+
+
 # ------------------------------------------------------------------------------------------
 # find_root
 def lib_residual(name, c):
@@ -236,12 +261,24 @@ def root_problem(rng, name):
     raise ValueError(name)
 
 
-def case_root(ctx, rng, name, layout):
+def shared(rng, o):
+    """the same object (70%) or an equal copy in a different object (30%) for a second slot"""
+    return o if rng.random() < 0.7 else 1.0 * o
+
+
+def case_root(ctx, rng, name, layout, repeat=None):
     pe = PE
     nd, res, inv, sens = ri.ROOTS[name]
     c, spec = root_problem(rng, name)
     ops = Operands(rng, ctx.tier, layout)
+    if repeat is not None:
+        spec[repeat[1]] = spec[repeat[0]]
     d = [ops.obs(m, w) for m, w in spec]
+    if repeat is not None:
+        # the same observable occupies two slots of d: the total derivative is the sum of the slot derivatives
+        d[repeat[1]] = shared(rng, d[repeat[0]])
+        ctx.cell('find_root_repeat', name, '%d%d' % repeat, 'same_object' if d[repeat[1]] is d[repeat[0]] else 'equal_copy')
+        ctx.count('repeated_object_cases')
     dv = [o.value for o in d]
     try:
         x_exact = inv(dv, c)
@@ -275,8 +312,12 @@ def case_root(ctx, rng, name, layout):
     ctx.close(res(got.value, dv, c), 0.0, mech + ':residual-not-zero-at-central-values', what, rtol=0, atol=1e-7 * abs(fx) * scale_x + 1e-13)
     # dense propagation with the analytic sensitivities
     ref, scale, snaps, rmeans = reference(d, s_exact, lambda v: inv(list(v), c))
+    # natural size of a sensitivity (root / datum) as floor for slots whose own sensitivity vanishes (e.g. -x/d0 at x = 0)
+    gabs = [max(abs(g_), 1e-3 * scale_x / max(abs(v_), 1e-300)) for g_, v_ in zip(s_exact, dv)]
+    scale = max(scale, dense.delta_scale(snaps, gabs))
+    gclean = tidy_cancellations(got, ref, snaps, gabs, 1e-6)
     t = ctx.trial()
-    ok = compare_obs(t, got, ref, mech, scale=scale, rtol=1e-6, vtol=1e-7, what=what, value_scale=scale_x)
+    ok = compare_obs(t, gclean, ref, mech, scale=scale, rtol=1e-6, vtol=1e-7, what=what, value_scale=scale_x)
     if not ok and diagnose_root(ctx, got, d, s_exact, inv, c, mech, what):
         ctx.evaluations += t.evaluations          # the named cause replaces the field-by-field records
     else:
@@ -289,7 +330,8 @@ def case_root(ctx, rng, name, layout):
     if direct is not None and is_obs(direct) and not split_safe(snaps):
         ctx.count('explicit_inverse_not_compared_split_dependent_layout')
     elif direct is not None and is_obs(direct):
-        compare_obs(ctx, got, as_ref(direct), mech + ':vs-explicit-inverse', scale=scale, rtol=1e-6, vtol=1e-7, what=what, value_scale=scale_x)
+        dref = as_ref(direct)
+        compare_obs(ctx, tidy_cancellations(got, dref, snaps, gabs, 1e-6), dref, mech + ':vs-explicit-inverse', scale=scale, rtol=1e-6, vtol=1e-7, what=what, value_scale=scale_x)
         ctx.count('explicit_inverse_compared')
         # telemetry: replica means
         gs = snap(got)
@@ -301,6 +343,12 @@ def case_root(ctx, rng, name, layout):
     moving = any(np.any(s['chains'][cn][1] != 0) for s in snaps for cn in s['chains']) or any(s['cov'] for s in snaps)
     if moving:
         ctx.nontrivial.add(digest('root', name, sorted(c.items()), dv, [sorted(s['chains']) for s in snaps]))
+    if rng.random() < 0.15:
+        decoy = [(-0.5 * x + 1.5 * x.value) if k_ == len(d) - 1 else x for k_, x in enumerate(d)]      # same names / lists / values, other data
+        pe.roots.find_root(decoy[0] if (nd == 1 and form == 'Obs') else (list(decoy) if form != 'array' else np.array(decoy)), func, guess=guess)
+        again = pe.roots.find_root(arg, func, guess=guess)
+        ctx.count('histories_judged')
+        ctx.require(is_obs(again) and obs_digest(again) == obs_digest(got), 'find_root:result-depends-on-call-history', {'what': what})
     ctx.sample({'call': 'find_root', 'family': name, 'constants': c, 'd': dv, 'layout': layout, 'form': form, 'guess': float(guess),
                 'root': got.value, 'exact': x_exact, 'sensitivities': s_exact})
 
@@ -367,7 +415,7 @@ def integral_problem(rng, name, half_line=False):
 PSEL = ['none', 'some', 'all']
 
 
-def case_quad(ctx, rng, name, psel, a_obs, b_obs, layout, half_line=False, weight=None):
+def case_quad(ctx, rng, name, psel, a_obs, b_obs, layout, half_line=False, weight=None, repeat=None):
     import scipy.integrate
     pe = PE
     npar, p, a, b, c = integral_problem(rng, name, half_line)
@@ -385,6 +433,29 @@ def case_quad(ctx, rng, name, psel, a_obs, b_obs, layout, half_line=False, weigh
             mask[int(i)] = True
     if half_line:
         b_obs = False
+    src = dst = None
+    if repeat is not None:
+        # the same observable occupies two slots (parameter-parameter, parameter-limit, limit-limit)
+        src = int(rng.integers(0, npar)) if name == 'poly' else 1
+        if repeat == 'pp':
+            if npar < 2:
+                raise Skip()
+            dst = int(rng.choice([k_ for k_ in range(npar) if k_ != src]))
+            p[dst] = p[src]
+            mask[src] = mask[dst] = True
+        elif repeat == 'pa':
+            mask[src] = True
+            a_obs = True
+            a = p[src]
+            b = a + float(rng.uniform(0.5, 2.5))
+        elif repeat == 'pb':
+            mask[src] = True
+            b_obs = True
+            b = p[src]
+            a = b - float(rng.uniform(0.5, 2.5))
+        else:
+            a_obs = b_obs = True
+            b = a
     wvar = None
     if weight is not None:
         wvar = float(rng.uniform(0.6, 3.0))
@@ -394,6 +465,18 @@ def case_quad(ctx, rng, name, psel, a_obs, b_obs, layout, half_line=False, weigh
     pin = [ops.obs(v, max(abs(v), 0.3)) if m else v for v, m in zip(p, mask)]
     ain = ops.obs(a, 1.0) if a_obs else a
     bin_ = ops.obs(b, 1.0) if b_obs else b
+    if repeat == 'pp':
+        pin[dst] = shared(rng, pin[src])
+    elif repeat == 'pa':
+        ain = shared(rng, pin[src])
+    elif repeat == 'pb':
+        bin_ = shared(rng, pin[src])
+    elif repeat == 'ab':
+        bin_ = shared(rng, ain)
+    if repeat is not None:
+        pair = {'pp': (pin[src], pin[dst] if dst is not None else None), 'pa': (pin[src], ain), 'pb': (pin[src], bin_), 'ab': (ain, bin_)}[repeat]
+        ctx.cell('quad_repeat', name, repeat, 'same_object' if pair[0] is pair[1] else 'equal_copy')
+        ctx.count('repeated_object_cases')
     pv = [x.value if is_obs(x) else x for x in pin]
     av = ain.value if is_obs(ain) else ain
     bv = bin_.value if is_obs(bin_) else bin_
@@ -406,7 +489,7 @@ def case_quad(ctx, rng, name, psel, a_obs, b_obs, layout, half_line=False, weigh
         kw = {'full_output': 1}
     elif r < 0.4:
         kw = {'limit': 80}
-    elif r < 0.55 and weight is None and not half_line:
+    elif r < 0.55 and weight is None and not half_line and repeat != 'ab':
         lo, hi = min(av, bv), max(av, bv)
         kw = {'points': [lo + 0.37 * (hi - lo), lo + 0.81 * (hi - lo)][:int(rng.integers(1, 3))]}
     elif r < 0.65:
@@ -463,8 +546,9 @@ def case_quad(ctx, rng, name, psel, a_obs, b_obs, layout, half_line=False, weigh
         return integral(pp, aa, bb, c) if weight is None else ri.weighted_integral(name, pp, aa, bb, c, weight, wvar)
     ref, scale, snaps, rmeans = reference(ins, grads, val)
     iscale = abs_integral(f, pv, av, bv, c)
+    gabs = [abs(g_) for g_ in grads]
     t = ctx.trial()
-    ok = compare_obs(t, res, ref, mech, scale=scale, rtol=1e-8, vtol=1e-9, what=what, value_scale=iscale)
+    ok = compare_obs(t, tidy_cancellations(res, ref, snaps, gabs, 1e-8), ref, mech, scale=scale, rtol=1e-8, vtol=1e-9, what=what, value_scale=iscale)
     named = False
     if not ok:
         hyp = {}
@@ -475,6 +559,9 @@ def case_quad(ctx, rng, name, psel, a_obs, b_obs, layout, half_line=False, weigh
             hyp['parameter-terms-ignore-the-weight-options'] = list(unw[:npo]) + list(grads[npo:])
             hyp['limit-terms-ignore-the-weight-function'] = list(grads[:npo]) + list(unw[npo:])
             hyp['parameter-and-limit-terms-ignore-the-weight-options'] = list(unw)
+        if len(set(id(x) for x in ins)) < len(ins):
+            last = {id(x): k_ for k_, x in enumerate(ins)}
+            hyp['derivatives-of-an-observable-in-several-slots-overwritten-instead-of-summed'] = [g_ if last[id(x)] == k_ else 0.0 for k_, (x, g_) in enumerate(zip(ins, grads))]
         named = diagnose_quad(ctx, res, ins, grads, val, sum(mask), a_obs, b_obs, mech, what, extra=hyp)
     if named:
         ctx.evaluations += t.evaluations      # the named cause replaces the field-by-field records of the fluctuations
@@ -485,6 +572,14 @@ def case_quad(ctx, rng, name, psel, a_obs, b_obs, layout, half_line=False, weigh
         ctx.absorb(t)
     if int(a_obs) + int(b_obs) >= 1 or sum(mask) >= 2:
         ctx.nontrivial.add(digest('quad', name, pv, av, bv, mask, a_obs, b_obs, [sorted(s['chains']) + sorted(s['cov']) for s in snaps]))
+    if rng.random() < 0.15 and ins:
+        x0 = ins[-1]
+        twin = -0.5 * x0 + 1.5 * x0.value                      # same names / lists / value, other data
+        swap = lambda v: twin if v is x0 else v
+        pe.integrate.quad(func, [swap(v) for v in pin], swap(ain), swap(bin_), **kw)
+        again = pe.integrate.quad(func, parg, ain, bin_, **kw)
+        ctx.count('histories_judged')
+        ctx.require(is_obs(again[0]) and obs_digest(again[0]) == obs_digest(res), 'quad:result-depends-on-call-history', {'what': what})
     ctx.sample({'call': 'quad', 'weight': weight, 'wvar': wvar, 'family': name, 'p': pv, 'a': av, 'b': bv, 'observable_parameters': mask, 'a_obs': a_obs, 'b_obs': b_obs,
                 'layout': layout, 'options': kw, 'value': res.value, 'exact': ref['value'], 'gradient': grads})
 
@@ -586,6 +681,11 @@ def plan(tier):
             p.append(('quadinf:%s:%d' % (psel, a_obs), 6 * m))
     for which in ('a', 'b', 'ab'):
         p.append(('quadother:%s' % which, 3 * m))
+    for name in ri.INTEGRANDS:
+        for rep in ('pp', 'pa', 'pb', 'ab'):
+            p.append(('quadrep:%s:%s' % (name, rep), (5 if rep != 'ab' else 2) * m))
+    for name, i, j in (('vec_linear', 0, 2), ('vec_linear', 1, 2), ('vec_cubic', 0, 1), ('vec_quadratic', 0, 1), ('vec_ratio_exp', 0, 1)):
+        p.append(('rootrep:%s:%d:%d' % (name, i, j), 6 * m))
     for name in ('poly', 'exp'):
         for weight in ('cos', 'sin'):
             for psel in PSEL:
@@ -601,6 +701,10 @@ def run_case(ctx, kind, idx, rng):
         case_root(ctx, rng, k[1], k[2])
     elif k[0] == 'quad':
         case_quad(ctx, rng, k[1], k[2], bool(int(k[3])), bool(int(k[4])), k[5])
+    elif k[0] == 'quadrep':
+        case_quad(ctx, rng, k[1], str(rng.choice(PSEL)), bool(rng.integers(0, 2)), bool(rng.integers(0, 2)), str(rng.choice(['same', 'different', 'covariance'])), repeat=k[2])
+    elif k[0] == 'rootrep':
+        case_root(ctx, rng, k[1], str(rng.choice(LAYOUTS)), repeat=(int(k[2]), int(k[3])))
     elif k[0] == 'quadother':
         case_quad_other_weight(ctx, rng, k[1])
     elif k[0] == 'quadw':
